@@ -334,7 +334,8 @@ class Run:
             oth = sorted({"%s(%s)" % (v.get("guard"), self.pmap.get(v.get("guard"), "?")) for v in other})
             self.notes.append("guards of other properties failed on these traces (reported by their own check): "
                               + ", ".join(oth))
-        self.write_evidence(len(fresh), sorted(known_hit))
+        if not getattr(self, "is_replay", False):   # a replay never overwrites the evidence of the registered tiers
+            self.write_evidence(len(fresh), sorted(known_hit))
         for n in self.notes:
             log(n)
         log("%s %s: %s  (states=%d transitions=%d traces=%d events=%d evals=%d nontrivial=%d, %.1fs)" % (
